@@ -2,7 +2,7 @@
 (* Exhaustive TLC run of the coded algorithm in lock step with the interpreter:
    every program of at most Ops operations over at most MaxD Deferreds.        *)
 EXTENDS DeferredImpl
-CONSTANTS Ops, MaxD, MaxPause, Fixed, Against, Plain
+CONSTANTS Ops, MaxD, MaxPause, Modes, Plain
 
 Behs(d) == Plain \cup {<<"retdef", t>> : t \in D \ {d}}
 PlainFull  == {<<"pass", 0>>, <<"ret", 1>>, <<"raise", 1>>, <<"retfail", 2>>}
@@ -19,7 +19,10 @@ MFireErr == More /\ \E d \in D : IFire(d, "err", 1)
 MPause   == More /\ \E d \in D : up[d] < MaxPause /\ IPause(d)
 MUnpause == More /\ \E d \in D : IUnpause(d)
 
-Init == \E n \in 1..MaxD : IInit([nd |-> n, fixed |-> Fixed, against |-> Against])
+\* <<fixed, against>> pairs explored in one run
+ModesBoth     == {<<FALSE, "known">>, <<TRUE, "abs">>}   \* must hold
+ModesCodedAbs == {<<FALSE, "abs">>}                      \* expected to fail: finding F1
+Init == \E n \in 1..MaxD, md \in Modes : IInit([nd |-> n, fixed |-> md[1], against |-> md[2]])
 Next == \/ MAddCb \/ MAddEb \/ MAddBoth \/ MFireOk \/ MFireErr \/ MPause \/ MUnpause
         \/ Outer \/ Inner \/ After
 Spec == Init /\ [][Next]_allvars
